@@ -201,12 +201,14 @@ def st_process(spec):
     if full:
         name_fp = np.empty(EXPECTED_TOTAL + 1024, dtype=np.uint64)
         hash_fp = np.empty(EXPECTED_TOTAL + 1024, dtype=np.uint64)
+        b64_fp = np.empty(EXPECTED_TOTAL + 1024, dtype=np.uint64)
         legacy_imgs = {MazeTokenizerModular.from_legacy(m).name for m in TokenizationMode}
         for x in all_instances(MazeTokenizerModular, V):
             if n < name_fp.shape[0]:
                 nm = x.name
                 name_fp[n] = _fp(nm)
                 hash_fp[n] = hash(x) % (1 << 64)
+                b64_fp[n] = _fp(x.hash_b64())
                 if nm in legacy_imgs:
                     n_legacy += 1
                 if x.is_legacy_equivalent() != (nm in legacy_imgs):
@@ -218,6 +220,9 @@ def st_process(spec):
             bad("C15.names-distinct", f"{m - un} name collisions among {m} enumerated tokenizers")
         if uh != m:
             bad("C15.hashes-distinct", f"{m - uh} hash collisions among {m} enumerated tokenizers")
+        ub = np.unique(b64_fp[:m]).shape[0]
+        if ub != m:
+            bad("C15.hashes-distinct", f"{m - ub} hash_b64() collisions among {m} enumerated tokenizers")
         events.append(["full", int(n), int(np.bitwise_xor.reduce(name_fp[:m])), int(name_fp[:m].sum(dtype=np.uint64)), int(np.bitwise_xor.reduce(hash_fp[:m])), int(hash_fp[:m].sum(dtype=np.uint64)), n_legacy])
         if n_legacy != len(legacy_imgs):
             bad("C15.legacy-images-enumerated-once", f"{n_legacy} enumerated tokenizers carry the name of a legacy image, expected {len(legacy_imgs)}")
@@ -226,9 +231,21 @@ def st_process(spec):
         stats["probe_full_name_hash_digests"] = 1
         stats["full_space_legacy_equivalence_checked"] = int(n)
     else:
-        for _ in all_instances(MazeTokenizerModular, V):
+        # every 20th enumerated tokenizer (~294 000): names and all three stable identifiers must be pairwise distinct
+        ids: dict = {"name": set(), "hash": set(), "hash_b64": set()}
+        n_strided = 0
+        for x in all_instances(MazeTokenizerModular, V):
+            if n % 20 == 7:
+                n_strided += 1
+                ids["name"].add(_fp(x.name))
+                ids["hash"].add(hash(x) % (1 << 64))
+                ids["hash_b64"].add(x.hash_b64())
             n += 1
-        events.append(["count", n])
+        for k, v in ids.items():
+            if len(v) != n_strided:
+                bad("C15.hashes-distinct" if k != "name" else "C15.names-distinct", f"{n_strided - len(v)} collisions of {k} among every 20th enumerated tokenizer ({n_strided})")
+        events.append(["count", n, n_strided, [len(ids[k]) for k in ("name", "hash", "hash_b64")]])
+        stats["strided_identifier_distinctness_checked"] = n_strided
     if n != predicted:
         bad("C15.count", f"enumeration yields {n} tokenizers, the parameter space predicts {predicted}")
 
